@@ -51,10 +51,11 @@ Spec == Init /\ [][Next]_vars
 \* Every file step of an operation precedes an LMDB top-level commit that publishes it:
 \* a node that commits the database batch before its MMR files are on disk violates this
 \* without a single crash being run.
-WriteOrder == \A i \in 1..Len(Steps(sc)) :
-                 Steps(sc)[i].file => \E j \in (i+1)..Len(Steps(sc)) : Steps(sc)[j].top
+\* (the step list is bound once per evaluation: Scenarios is read from a file by the MC / trace modules)
+WriteOrder == LET st == Steps(sc) IN
+              \A i \in 1..Len(st) : st[i].file => \E j \in (i+1)..Len(st) : st[j].top
 \* an operation that writes anything ends by publishing it
-EndsWithCommit == Len(Steps(sc)) > 0 => Steps(sc)[Len(Steps(sc))].l = "lmdb.commit.after top"
+EndsWithCommit == LET st == Steps(sc) IN Len(st) > 0 => st[Len(st)].l = "lmdb.commit.after top"
 \* every crash prefix is recoverable by the contract (the contract is satisfiable)
 Recoverable == phase \in {"recovered", "redelivered"} => RecoverOK(out)
 TypeOK == done \in 0..Len(Steps(sc)) /\ phase \in {"run", "complete", "crashed", "recovered", "redelivered"}
